@@ -60,6 +60,8 @@ def _fs_case(draw):
 def _model_case(draw):
     spec = draw(D.dataset_spec(features=True, tfeatures=True, raw=False, naming='ks'))
     ns, nc = spec['ns'], spec['nc']
+    if draw(st.integers(0, 3)) == 0:
+        spec['pcf']['nonfinite'] = spec['tf']['nonfinite'] = True
     queries = []
     for _ in range(3):
         k = draw(st.integers(1, ns))
@@ -98,9 +100,55 @@ def _pca_large_cases(th):
                'large': True}
 
 
+def _model_large_cases(th):
+    # one request that resolves to more than 2**18 (thorough: 2**20) stored rows
+    for i, (ns, rows) in enumerate([(2 ** 18 + 5 + 60000, False), (2 * 2 ** 18 + 2 ** 17 + 9, True)] +
+                                   ([(2 ** 20 + 3, False), (2 ** 16 + 100, True)] if th else [])):
+        yield {'k': 'model-large', 'ns': ns, 'seed': i + 1, 'rows': rows}
+
+
+def _check_model_large(case):
+    ns = case['ns']
+    spec = D.large_spec(ns, seed=case['seed'])
+    nt, nc = spec['nt'], spec['nc']
+    if case['rows']:
+        spec['pcf']['rows'] = list(range(0, ns, 2))      # every other spike is stored
+    rs = np.random.RandomState(case['seed'])
+    spec['tf'] = {'nloc': 2, 'rows': spec['pcf']['rows'],
+                  'ind': [rs.permutation(nt)[:2].tolist() for _ in range(nt)],
+                  'ind_dtype': 'uint32', 'dtype': 'float32', 'rows_dtype': 'int64'}
+    with env.scratch() as d:
+        T = D.build(spec, d / 'ds')
+        m = D.load(T, must_return)
+        try:
+            sp = np.arange(ns, dtype=np.int64) if not case['rows'] else T.pcf_rows.astype(np.int64)
+            ch = [nc - 1, 0, 3]
+            st_ = np.asarray(T.spike_templates).astype(np.int64)[sp]
+            out = must_return('get_features', m.get_features, sp, np.array(ch))
+            exp = np.zeros((len(sp), len(ch), 3))
+            for j, c in enumerate(ch):
+                for k in range(T.pcf.shape[2]):
+                    hit = T.pcf_ind.astype(np.int64)[st_, k] == c
+                    exp[hit, j, :] = T.pcf[:len(sp)][hit, :, k]
+            same_array('get_features (all %d stored spikes in one request)' % len(sp), out, exp,
+                       key='get_features', dtype=False)
+            out = must_return('get_template_features', m.get_template_features, sp)
+            exp = np.zeros((len(sp), nt))
+            for k in range(T.tf.shape[1]):
+                exp[np.arange(len(sp)), T.tf_ind.astype(np.int64)[st_, k]] = T.tf[:len(sp), k]
+            same_array('get_template_features (all %d stored spikes in one request)' % len(sp),
+                       out, exp, key='get_template_features', dtype=False)
+        finally:
+            m.close()
+    return {'mixed': True}
+
+
 def drivers(tier):
     th = tier == 'thorough'
     return [
+        dict(kind='enum', name='model-large', exhaustive=False,
+             bound='requests of more than 2**18 (thorough: 2**20) stored rows',
+             cases=lambda: _model_large_cases(th)),
         dict(kind='hyp', name='from_sparse', strategy=_fs_case(), examples=400000 if th else 30000),
         dict(kind='hyp', name='model', strategy=_model_case(), examples=60000 if th else 5000),
         dict(kind='hyp', name='pca', strategy=_pca_case(), examples=15000 if th else 1500),
@@ -170,7 +218,7 @@ def _check_model(case):
                             for k in range(T.pcf.shape[2]):
                                 if int(T.pcf_ind[t, k]) == c:
                                     e = T.pcf[r, :, k].astype(np.float64)
-                            if not np.array_equal(outp[i, j], e):
+                            if not np.array_equal(outp[i, j], e, equal_nan=True):
                                 raise Violation('get_features(permuted request: spike %d, channel '
                                                 '%d) is not the stored value / zero' % (s, c),
                                                 key='get_features-permuted', observed=outp[i, j],
@@ -190,7 +238,7 @@ def _check_model(case):
                         for k in range(T.pcf.shape[2]):
                             if int(T.pcf_ind[t, k]) == c:
                                 e = T.pcf[r, :, k].astype(np.float64)
-                        if not np.array_equal(out[i, j], e):
+                        if not np.array_equal(out[i, j], e, equal_nan=True):
                             raise Violation('get_features(spike %d, channel %d) is not the stored '
                                             'value / zero' % (s, c), key='get_features',
                                             observed=out[i, j], expected=e)
@@ -293,6 +341,8 @@ def check(case):
         return _check_fs(case)
     if k == 'model':
         return _check_model(case)
+    if k == 'model-large':
+        return _check_model_large(case)
     return _check_pca(case)
 
 
@@ -317,8 +367,13 @@ def classify(case, info):
             labels.append('fs:uint32-cols')
         if len(case['req']) >= 20:
             labels.append('fs:long-request')
+    elif k == 'model-large':
+        labels.append('request>2**18-rows' + ('+row-table' if case['rows'] else ''))
+        nt = True
     elif k == 'model':
         s = case['spec']
+        if s['pcf'].get('nonfinite'):
+            labels.append('model:non-finite-stored-values')
         if s['pcf']['rows'] is not None:
             labels.append('model:pcf-row-table')
             nt = True
